@@ -297,6 +297,11 @@ CHECKS = {
     technique='runtime monitoring: differential between loading modes (static, discontiguous, dynamic+assertz, clause/2 meta-interpreter) and calling modes (direct, call/1, call/N, partial goals, wrapper clauses) of one random program',
     text='Each random program (C07 generator, 40% cut-free, plus the list library) is installed under different predicate-name prefixes as static code, as interleaved discontiguous clauses, as a dynamic predicate filled clause by clause with assertz/1, and is interpreted by a clause/2 meta-interpreter (cut-free programs); every query (all-free and one-argument-given calls of every predicate, list-library goals) is run directly, through call/1 of the goal term, call/N with name and arguments, call/N with a partial goal, and four kinds of wrapper clause; all answer sequences must equal those of the static direct call.',
     note='Queries whose evaluation orders distinct unbound variables are skipped (implementation-defined order); clause shapes of the compiler findings K41-K43 are not generated (they are probed by C07). The meta-interpreter exposed K43 (the compiled code was the wrong side).'),
+ 'C11': dict(
+    level='exploration',
+    technique='runtime monitoring: invariant monitor: copy_term/3 snapshots of a prepared state (term copy plus residual goals) and of the global variables before and after a failing / backtracked / abandoned context',
+    text='A state consisting of an older unbound variable, a partially bound structure, a bound constant, an attributed variable (none, dif/2, freeze/2 or both) and two global variables is snapshotted, a random sequence of 1-6 binding, aliasing, constraint-posting and global-variable actions is run inside one of 9 contexts that fail or are abandoned (negation, double negation, failing if-then-else condition, findall/3, catch/3 recovery after a throw, exhausted disjunction, forall/2, once/1 followed by failure, two contexts nested), and the state is snapshotted again; the snapshots must be variants including residual goals, the bb_b_put/2 variable must be back at its old value and the bb_put/2 variable must hold the last value written. Every test body runs both as a compiled clause (permanent variables) and as a called term (heap variables).',
+    note='Action sequences are generated so that no action can fail, which makes the expected value of the non-backtrackable global variable known.'),
 }
 
 NOT_APPLICABLE_REASON_UNBUILT = ('check designed in DESIGN.md but not built/validated yet in this session; '
